@@ -52,6 +52,11 @@ func At(ll orb.Point, z Zoom) Tile {
 		Z: z,
 	}
 
+	// longitude 180 maps to 2^z, snap it to the last column
+	if max := uint32(1) << uint32(z); t.X >= max {
+		t.X = max - 1
+	}
+
 	return t
 }
 
